@@ -261,7 +261,12 @@ def build3(m):
                  ("implies(result, line.strip() != '')", ['C03', 'C02', 'C13'])], prop=['C01']), static=True)
     method('Quote', 'start', Contract(
         MOD + ':Quote.start', [('line', STR)], returns=BOOL, pure=True,
-        ensures=["implies(result, line.lstrip(' ').startswith('>'))"], prop=['C01', 'C04']), static=True)
+        ensures=["implies(result, line.lstrip(' ').startswith('>'))",
+                 # CommonMark 5.1: a block quote marker is '>' after at most three SPACES of indentation
+                 # (a tab counts four columns, so a tab-indented '>' is not a marker)
+                 ("result == (line.lstrip(' ').startswith('>') and len(line) - len(line.lstrip(' ')) <= 3)",
+                  ['C14', 'C03', 'C02', 'C04'])],
+        prop=['C01', 'C04', 'C14']), static=True)
     method('Quote', 'convert_leading_tabs', Contract(
         MOD + ':Quote.convert_leading_tabs', [('string', STR)], returns=STR, pure=True,
         requires=['len(string) >= 1'],
